@@ -149,9 +149,10 @@ def record(scn, wd, memptr0_at=()):
             # new snapshot + input recording block: the player rebuilds its machine from this snapshot (unless flag 4)
             data2 = _snapshot_bytes(sim, second['fmt'], wd, 'second')
             k0 = tr.k
-            sim, tr = _new_sim(scn, data2, second['fmt'], 0, k0)
+            t_now = regs[25]        # the new input recording block starts at the clock the machine has now
+            sim, tr = _new_sim(scn, data2, second['fmt'], t_now, k0)
             regs, mem = sim.registers, sim.memory
-            pairs.append([second['fmt'], data2, second['compress'], 0, []])
+            pairs.append([second['fmt'], data2, second['compress'], t_now, []])
             st['second_pair'] = 1
         spec = specs[i]
         cur = pairs[-1][4]
